@@ -587,8 +587,8 @@ Proof. exact walk_b_is_walk. Qed.
 Print Assumptions C11_walk_b_is_walk.
 
 (* A flat message with the catalogue entry tr whose slots all resolve to core prints ({print e|ds} over C04's
-   expression subset; [ss] = the items as statements of C04's subset: SRaw t for a text segment, SPrint e ds
-   for a slot), from ANY three states related by C04's [sim] (the renderer's state, the JavaScript
+   expression subset) or html tags of the message ([ss] = the items as statements of C04's subset: SRaw t for a
+   text segment and for a tag, SPrint e ds for a print: [item_stmt]), from ANY three states related by C04's [sim] (the renderer's state, the JavaScript
    environment, the generator's state; old = the buffer variable so far), when the subset semantics gives the
    items the text [text] (stmts_text: the translation's text segments and the printed, escaped values of the
    slots' placeholders, in the TRANSLATION's order):
@@ -597,8 +597,8 @@ Print Assumptions C11_walk_b_is_walk.
          old ++ text in the buffer variable);
    (Gen) soyjs's visitMsgNode with the same catalogue entry emits exactly the chunks of those statements;
    and the three resulting states are related by [sim] again, so C04's theorems apply to the code that follows.
-   PARTIAL with respect to C04/C11's full statement: flat messages, slots that are core prints (not html tags,
-   not calls), values whose text has no NUL and no double quote (C04's [cleanb]), no plural. *)
+   PARTIAL with respect to C04/C11's full statement: flat messages, slots that are core prints or html tags (not
+   calls, not prints outside C04's expression subset), values whose text has no NUL and no double quote (C04's [cleanb]), no plural. *)
 Theorem C11_three_sided_translation_partial : forall cf plural_index bd o lv fuel mp id body tr msgs ss,
   forallb flat_node body = true -> items_named body tr -> parts_clean (map item_part tr) ->
   bundle_message bd id = Some (new_message [] [msgstr_of tr]) ->
@@ -618,32 +618,34 @@ Theorem C11_three_sided_translation_partial : forall cf plural_index bd o lv fue
 Proof. exact three_sided_translation. Qed.
 Print Assumptions C11_three_sided_translation_partial.
 
-(* non-vacuity: "Hello {X}, {A_B}!" translated to "{A_B} -- {X}: hola" with x = 4 in the generated variable x_3
+(* non-vacuity: "Hello {X}, {A_B}!{BREAK}" translated to "{BREAK}{A_B} -- {X}: hola" with x = 4 in the generated variable x_3
    and a.b = "1<2" in opt_data, autoescape on: the items resolve to core prints, the subset semantics gives the
    text, and the MiniJS statements append it.  ([sim] for this scope, environment and counter is satisfiable:
    Properties/C04.v C04_ginv_nonvacuous, C04_env_rel_nonvacuous.) *)
 Definition ex3_px : node := snode (SPrint (CVar (b "x") []) []).
 Definition ex3_pa : node := snode (SPrint (CVar (b "a") [CAKey false (b "b")]) []).
 Definition ex3_body : list node :=
-  [NRawText 1 (b "Hello "); NMsgPlaceholder 2 (b "X") ex3_px; NRawText 3 (b ", "); NMsgPlaceholder 4 (b "A_B") ex3_pa; NRawText 5 (b "!")].
-Definition ex3_tr : list titem := [TPh 4 (b "A_B") ex3_pa; TText (b " -- "); TPh 2 (b "X") ex3_px; TText (b ": hola")].
+  [NRawText 1 (b "Hello "); NMsgPlaceholder 2 (b "X") ex3_px; NRawText 3 (b ", "); NMsgPlaceholder 4 (b "A_B") ex3_pa; NRawText 5 (b "!");
+   NMsgPlaceholder 6 (b "BREAK") (NMsgHtmlTag 6 (b "<br/>"))].
+Definition ex3_tr : list titem :=
+  [TPh 6 (b "BREAK") (NMsgHtmlTag 6 (b "<br/>")); TPh 4 (b "A_B") ex3_pa; TText (b " -- "); TPh 2 (b "X") ex3_px; TText (b ": hola")].
 Definition ex3_ss : list cstmt :=
-  [SPrint (CVar (b "a") [CAKey false (b "b")]) []; SRaw (b " -- "); SPrint (CVar (b "x") []) []; SRaw (b ": hola")].
+  [SRaw (b "<br/>"); SPrint (CVar (b "a") [CAKey false (b "b")]) []; SRaw (b " -- "); SPrint (CVar (b "x") []) []; SRaw (b ": hola")].
 Definition ex3_env (k : bstr) : option value :=
   if bstr_eqb k (b "a") then Some (VMap 7 [(b "b", VStr (b "1<2"))]) else if bstr_eqb k (b "x") then Some (VInt 4) else None.
 Definition ex3_cf : cfg := {| c_reg := empty_registry; c_ij := None; c_oblig := []; c_msgs := None |}.
 Example ex3_three_sided :
-  forallb flat_node ex3_body = true /\ msgstr_of ex3_tr = b "{A_B} -- {X}: hola"
+  forallb flat_node ex3_body = true /\ msgstr_of ex3_tr = b "{BREAK}{A_B} -- {X}: hola"
   /\ bundle_message [(9, new_message [] [msgstr_of ex3_tr])] 9 = Some (new_message [] [msgstr_of ex3_tr])
   /\ Forall2 item_stmt (map (resolve ex3_body) ex3_tr) ex3_ss
-  /\ stmts_text ex3_cf 1 ex3_env ex3_ss = Some (b "1&lt;2 -- 4: hola")
+  /\ stmts_text ex3_cf 1 ex3_env ex3_ss = Some (b "<br/>1&lt;2 -- 4: hola")
   /\ (match js_exec_seq {| je_vars := [(b "output", JStr (b "ab")); (b "x_3", JNum 4)]; je_data := JObj [(b "a", JObj [(b "b", JStr (b "1<2"))])] |}
                         (stmts_js 1 (b "output") [[(b "x", b "x_3")]] 3 ex3_ss) with
-       | Ok je' => assoc_s (b "output") (je_vars je') | _ => None end) = Some (JStr (b "ab1&lt;2 -- 4: hola")).
+       | Ok je' => assoc_s (b "output") (je_vars je') | _ => None end) = Some (JStr (b "ab<br/>1&lt;2 -- 4: hola")).
 Proof.
   split; [reflexivity|]. split; [vm_compute; reflexivity|]. split; [reflexivity|].
   split; [|split; vm_compute; reflexivity].
-  cbn. repeat constructor.
+  vm_compute. repeat constructor.
   - exact (is_print 4 (b "A_B") (CVar (b "a") [CAKey false (b "b")]) []).
   - exact (is_print 2 (b "X") (CVar (b "x") []) []).
 Qed.
